@@ -32,7 +32,7 @@ TRUSTED = ["CasADi: `ca.symvar`, construction of `ca.Function` (fails exactly on
 ASSUMPTIONS = ["scalar models (vector expansion is property C18); variable names are distinct (keys of Python dicts)",
                "an exception raised by simplify on a regular system counts as 'functions cannot be built' unless it is the documented "
                "`eliminable_variable_expression requires expand_mx`",
-               "reduce_affine_expression is covered by the direct oracle only"]
+               "reduce_affine_expression: the row-by-row model is compared by value with the real collapsed residuals (see C14)"]
 
 
 def run(ctx):
